@@ -164,6 +164,14 @@ Proof. exact (DynAttFun.att_status_history_independent L leqb leqb_spec). Qed.
 
 End C08att.
 
+(* (2') what att_indices computes, when it succeeds: for every attack the index
+   (variable of the attacked - 1) * a_n + variable of the attacker - 1, in iteration order
+   ([avd e id] = the variable the table holds for id) *)
+Theorem C08_att_indices_meaning : forall e (atts : list (nat * nat)) idx,
+  att_indices e atts = Some idx ->
+  idx = map (fun p => att_index (a_n e) (avd e (snd p)) (avd e (fst p))) atts.
+Proof. exact DynAttFun.att_indices_idx. Qed.
+
 (* (4b) the clauses are a correct encoding.  n slots; ids = the live arguments; atts = the attacks
    (attacker, attacked); av = the slot (= variable) of an argument, injective into 1..n; the
    assumptions fix attack variable (a, b) to "the argument of slot b attacks the argument of slot a" *)
@@ -309,6 +317,7 @@ Print Assumptions C08_att_reencoding_session.
 Print Assumptions C08_att_answers.
 Print Assumptions C09_att_usable_and_correct.
 Print Assumptions C08_att_status_history_independent.
+Print Assumptions C08_att_indices_meaning.
 Print Assumptions C08_att_stable_sound.
 Print Assumptions C08_att_complete_sound.
 Print Assumptions C08_att_stable_complete.
